@@ -98,12 +98,13 @@ type State struct {
 	panicWhat string
 	trace     []string
 	epoch     int // bumped by a havoc of the whole heap
+	acq       []*Term // locks acquired (and not syntactically released) on this path by the function under verification
 }
 
 func (st *State) top() *Frame { return st.frames[len(st.frames)-1] }
 
 func (st *State) clone() *State {
-	n := &State{alloc: st.alloc, panicking: st.panicking, panicWhat: st.panicWhat, epoch: st.epoch}
+	n := &State{alloc: st.alloc, panicking: st.panicking, panicWhat: st.panicWhat, epoch: st.epoch, acq: append([]*Term(nil), st.acq...)}
 	n.heaps = make(map[string]*Term, len(st.heaps))
 	for k, v := range st.heaps {
 		n.heaps[k] = v
